@@ -3,6 +3,8 @@
 package evt
 
 import (
+	"ebuverif/vrt"
+
 	eventbus "github.com/jilio/ebu"
 )
 
@@ -11,6 +13,13 @@ import (
 // (pigeonhole: 40 types, fewer shards than that unless the tree changed a lot).
 // ok=false if no collision exists.
 func Pick() (a, b, c *TypeOps, ok bool) {
+	// inside a controlled execution, so that a goroutine the bus may start with New is a
+	// task that ends with it
+	vrt.Run(vrt.Config{}, func() { a, b, c, ok = pick() })
+	return
+}
+
+func pick() (a, b, c *TypeOps, ok bool) {
 	bus := eventbus.New()
 	byShard := map[string][]*TypeOps{}
 	for _, t := range Pool {
